@@ -232,6 +232,24 @@ def tvlOrdCode (o : Ord) (s a : NCell) : Cell := ⟨ordCode o s a, s.m || a.m⟩
 def tvlEqCode (s a : ICell) : Cell := ⟨eqCode s a, s.m || a.m⟩
 def tvlNeCode (s a : ICell) : Cell := ⟨neCode s a, s.m || a.m⟩
 
+/-- what `tvl_eq` / `tvl_ne` return: ONE three-valued answer when the operands cannot be compared element by element
+    (`==` answered with a Python bool), else one per element -/
+inductive TvlCmpRes where
+  | whole (c : Cell)
+  | elems (r : Arr Cell)
+
+/-- tvl.py `_tvl_op`, branch `isinstance(comparison, bool)` with builtins off: the single truth value is indeterminate iff
+    either operand is ENTIRELY masked, however that mask is represented (`bool(np.all(mask))`, passed in as
+    `allS`, `allA`) -/
+def tvlWholeCode (value allS allA : Bool) : Cell := ⟨value, allS || allA⟩
+
+/-- `tvl_eq` (`isEq = true`) / `tvl_ne` of operands of one class -/
+def tvlCmpTop (isEq : Bool) (itemS itemA : List Nat) (allS allA : Bool) (s a : Arr ICell) : TvlCmpRes :=
+  if !compatCode itemS itemA s.shape a.shape then .whole (tvlWholeCode (!isEq) allS allA)
+  else match Arr.map2 (if isEq then tvlEqCode else tvlNeCode) s a with
+    | some r => .elems r
+    | none => .whole (tvlWholeCode (!isEq) allS allA)
+
 /-- specification of a tvl comparison: unknown if either side is unknown -/
 def tvlCmpSpec (r : Bool) (sm am : Bool) : T3 :=
   match sm || am, r with
